@@ -2,8 +2,9 @@
    generic over the [ops] record (instantiated with R for the theorems and, after extraction, with OCaml
    floats for the numeric correspondence with the implementation).
 
-   Mirrors, branch for branch and in the same operation order, the code AS IT IS in
-     base/vectors.py       norm (the loop sum += x*x, then sqrt), unitvec (None at or below its threshold)
+   Mirrors, branch for branch and in the same operation order, the code AS IT IS (after the repairs
+   b361ecf log by atan2 / zero vector part, dbb1296 exp of a real quaternion) in
+     base/vectors.py       norm (the loop sum += x*x, then sqrt)
      base/quaternions.py   qnorm (np.linalg.norm of the 4-vector), unit (ValueError below tol*_eps)
      quaternion.py         Quaternion.norm, Quaternion.log, Quaternion.exp (both branches),
                            UnitQuaternion(s=, v=) (the normalising constructor: base.unit),
@@ -11,28 +12,25 @@
    The thresholds are NOT literals here: they are the fields of a [qthr] record whose value is regenerated
    from the source AST on every run (coq/gen/Consts_C12.v).
    Python errors are results:
-     [ValueErr]  math.log(0) / math.acos outside [-1,1] in log; the explicit raise of base.unit
-     [TypeErr]   `float * None` in log when unitvec returns None
-     [NanRes]    no exception: exp divides the (ndarray) vector part by its norm 0 -> NaN components
+     [ValueErr]  math.log(0); the explicit raise of log for a negative real quaternion; the explicit raise of base.unit
+     [TypeErr]   not produced by the current code (kept so that the error codes of the correspondence are stable)
    (math.exp overflowing for s > 709.78 is a floating-point range matter with no counterpart over R.) *)
 From Coq Require Import ZArith.
 From SM Require Import Base.Ops Base.Lin.
 
 Record qthr (T : Type) := {
   t_exp     : T;   (* Quaternion.exp  : abs(self.s) < t_exp      (source: 100 * _eps) *)
-  t_unitvec : T;   (* vectors.unitvec : n > t_unitvec            (source: 100 * _eps) *)
   t_unit    : T    (* quaternions.unit: abs(nm) < t_unit         (source: tol * _eps, default tol=10) *)
 }.
-Arguments t_exp {T} _. Arguments t_unitvec {T} _. Arguments t_unit {T} _.
+Arguments t_exp {T} _. Arguments t_unit {T} _.
 
-Inductive qres (A : Type) := Ok (a : A) | TypeErr | ValueErr | NanRes.
-Arguments Ok {A} a. Arguments TypeErr {A}. Arguments ValueErr {A}. Arguments NanRes {A}.
+Inductive qres (A : Type) := Ok (a : A) | TypeErr | ValueErr.
+Arguments Ok {A} a. Arguments TypeErr {A}. Arguments ValueErr {A}.
 Definition qres_opt {A} (r : qres A) : option A := match r with Ok a => Some a | _ => None end.
 Definition qres_code {T} (O : ops T) {A} (r : qres A) : T :=
-  match r with Ok _ => zero O | TypeErr => one O | ValueErr => add O (one O) (one O)
-             | NanRes => add O (add O (one O) (one O)) (one O) end.
+  match r with Ok _ => zero O | TypeErr => one O | ValueErr => add O (one O) (one O) end.
 Definition qbind {A B} (r : qres A) (f : A -> qres B) : qres B :=
-  match r with Ok a => f a | TypeErr => TypeErr | ValueErr => ValueErr | NanRes => NanRes end.
+  match r with Ok a => f a | TypeErr => TypeErr | ValueErr => ValueErr end.
 
 Section Model.
 Context {T : Type} (O : ops T) (K : qthr T).
@@ -46,11 +44,6 @@ Definition vnorm3 (v : V3 T) : T := let '(a,b,c) := v in sqrt_ O (a*a + b*b + c*
 (* quaternions.qnorm / Quaternion.norm (single element): np.linalg.norm(q) = sqrt(q . q) *)
 Definition qnorm4 (q : V4 T) : T := let '(s,x,y,z) := q in sqrt_ O (s*s + x*x + y*y + z*z).
 
-(* vectors.unitvec: n = norm(v); if n > K: return v / n  else: return None *)
-Definition unitvec3 (v : V3 T) : option (V3 T) :=
-  let n := vnorm3 v in
-  if ltb O (t_unitvec K) n then let '(a,b,c) := v in Some (a/n, b/n, c/n) else None.
-
 (* quaternions.unit: nm = np.linalg.norm(q); if abs(nm) < tol*_eps: raise ValueError; return q / nm *)
 Definition qunit (q : V4 T) : qres (V4 T) :=
   let nm := qnorm4 q in
@@ -58,7 +51,12 @@ Definition qunit (q : V4 T) : qres (V4 T) :=
   else let '(s,x,y,z) := q in Ok (s/nm, x/nm, y/nm, z/nm).
 
 (* Quaternion.log:
-     norm = self.norm(); s = math.log(norm); v = math.acos(self.s / norm) * base.unitvec(self.v)
+     norm = self.norm(); s = math.log(norm); norm_v = base.norm(self.v)
+     if norm_v == 0:
+         if self.s < 0: raise ValueError
+         v = np.zeros((3,))
+     else:
+         v = math.atan2(norm_v, self.s) * self.v / norm_v
      return Quaternion(s=s, v=v) *)
 Definition qlog (q : V4 T) : qres (V4 T) :=
   let '(s,x,y,z) := q in
@@ -66,18 +64,18 @@ Definition qlog (q : V4 T) : qres (V4 T) :=
   if leb O nrm 0 then ValueErr                       (* math.log: math domain error *)
   else
     let ls := ln_ O nrm in
-    let c := s / nrm in
-    if ltb O 1 (abs_ O c) then ValueErr              (* math.acos: math domain error *)
+    let nv := vnorm3 (x,y,z) in
+    if eqb O nv 0 then
+      if ltb O s 0 then ValueErr                     (* negative real quaternion *)
+      else Ok (ls, 0, 0, 0)
     else
-      let th := acos_ O c in
-      match unitvec3 (x,y,z) with
-      | None => TypeErr                              (* float * None *)
-      | Some (u0,u1,u2) => Ok (ls, th*u0, th*u1, th*u2)
-      end.
+      let th := atan2_ O nv s in
+      Ok (ls, th*x/nv, th*y/nv, th*z/nv).
 
 (* Quaternion.exp:
-     exp_s = math.exp(self.s); norm_v = base.norm(self.v)
-     s = exp_s * math.cos(norm_v); v = exp_s * self.v / norm_v * math.sin(norm_v)
+     exp_s = math.exp(self.s); norm_v = base.norm(self.v); s = exp_s * math.cos(norm_v)
+     if norm_v == 0: v = exp_s * self.v
+     else:           v = exp_s * self.v / norm_v * math.sin(norm_v)
      if abs(self.s) < K: return UnitQuaternion(s=s, v=v)     # normalised by base.unit
      else:               return Quaternion(s=s, v=v)
    the boolean is the class of the result (true = UnitQuaternion) *)
@@ -86,12 +84,10 @@ Definition qexp (q : V4 T) : qres (bool * V4 T) :=
   let es := exp_ O s in
   let nv := vnorm3 (x,y,z) in
   let s' := es * cos_ O nv in
-  if eqb O nv 0 then NanRes                          (* ndarray / 0.0: NaN, no exception *)
-  else
-    let sn := sin_ O nv in
-    let r := (s', es*x/nv*sn, es*y/nv*sn, es*z/nv*sn) in
-    if ltb O (abs_ O s) (t_exp K) then qbind (qunit r) (fun u => Ok (true, u))
-    else Ok (false, r).
+  let r := if eqb O nv 0 then (s', es*x, es*y, es*z)
+           else let sn := sin_ O nv in (s', es*x/nv*sn, es*y/nv*sn, es*z/nv*sn) in
+  if ltb O (abs_ O s) (t_exp K) then qbind (qunit r) (fun u => Ok (true, u))
+  else Ok (false, r).
 
 Definition qexp_vec (q : V4 T) : qres (V4 T) := qbind (qexp q) (fun r => Ok (snd r)).
 Definition qexp_is_unit (q : V4 T) : bool := match qexp q with Ok (b, _) => b | _ => false end.
